@@ -164,6 +164,16 @@ def main(argv=None):
                 for rc in phase_rcs:
                     rcs[str(rc)] = rcs.get(str(rc), 0) + 1
         report.coverage["return_codes_seen"] = rcs
+        if pid in ("C10", "C11", "C12"):
+            # Layer G: incremental maintenance of the cached columns that dispatch rests on
+            # (spec/SchedCache.tla) model checked and replayed into the real Workflow + Scheduler
+            from checks import schedcache
+            sc = schedcache.run(report, args.tier, args.seed, pid)
+            report.coverage["schedcache"] = sc
+            report.coverage["states"] = report.coverage.get("states", 0) + sc.get("states", 0)
+            report.coverage["traces_validated_against_impl"] = report.coverage.get("traces_validated_against_impl", 0) + sc.get("sequences", 0)
+            if sc.get("f1_found_by_model") and sc.get("f2_found_by_model"):
+                report.notes.append("SchedCache.tla: the pre-fix variants of F1 (MIN over chains) and F2 (edge loss does not flag the producer) fail in the model")
     return report.finish()
 
 
